@@ -47,7 +47,7 @@ class C16(Property):
             'distinct by case hash')
 
     def budget(self, tier):
-        return 50000 if tier == 'quick' else 2000000
+        return 120000 if tier == 'quick' else 2000000
 
     def explicit_cases(self, ctx):
         # all byte strings of length <= 2, packed 256 per case
